@@ -5,7 +5,7 @@ from pv import env, exact, gens
 
 ID = "C01"
 LEVEL = "exploration"
-N = {"quick": 400, "thorough": 5000}
+N = {"quick": 600, "thorough": 5000}
 RULE = ("cases = (two contracts over a wiring in {independent, cascade either order, shared inputs, feedback, mixed} with structured "
         "or wild contents sharing a witness, vars_to_keep subset of outputs, simplify flag, tactics_order, call order); oracle: "
         "A_C and (A1+ => G1) and (A2+ => G2) must imply every term of A1, A2 and G_C (exact, box 1000, tolerance 1e-4(1+|c|), A+ = "
